@@ -39,7 +39,7 @@ TECHNIQUE = ("symbolic execution of the real CycleProfile.make / analyze_transac
              "counterexamples replayed on amaranth.sim and re-executed concretely")
 BOUNDS = {
     "quick": "12 generated designs (seeded): <= 3 top-level transactions (+ nested, <= 4 transaction bodies), <= 3 methods, If/Switch/FSM contexts, "
-             "conflicts / priorities / schedule_before, eager scheduler; (a) all register states with valid FSM registers and all inputs; (b) 3 cycles "
+             "conflicts / priorities / schedule_before, eager scheduler, every second design drawn such that a lock situation is reachable; (a) all register states with valid FSM registers and all inputs; (b) 3 cycles "
              "(2 when one cycle has more than 8 paths, 1 above 40); (c) 1 cycle (2 when one cycle of the process has at most 12 paths)",
     "thorough": "60 generated designs, same grammar; (b) 3 cycles up to 14 paths per cycle; (c) 2 cycles up to 24 paths per cycle",
 }
@@ -91,11 +91,31 @@ def _pick(cfg, trace):
                 continue
         except OverflowError:
             continue
-        tk = an.orc.tkeys()
-        if cfg["want_conflict"] and not any(an.orc.conflict(a, b) for a in tk for b in tk if a != b):
-            continue
+        if cfg["want_conflict"] and not _lock_reachable(an):
+            continue  # every second design is chosen such that a lock situation exists (conflicts may be unreachable, e.g. behind FSM states)
         return spec, an, j
     raise Unsupported("no admissible design in 400 draws")
+
+
+def _conflict_pairs(an, info):
+    tk = an.orc.tkeys()
+    return [(info.id_of[a], info.id_of[b]) for a in tk for b in tk if a != b and an.orc.conflict(a, b)]
+
+
+def _lock_formula(info, S, pairs):
+    return z3.Or(*[z3.And(S(a, "ready"), S(a, "runnable"), z3.Not(S(a, "run")), S(b, "run")) for a, b in pairs])
+
+
+def _lock_reachable(an):
+    """some ready and runnable transaction can lose to a running conflicting one (decided on the netlist)."""
+    info = _Info(an)
+    pairs = _conflict_pairs(an, info)
+    if not pairs:
+        return False
+    an.open()
+    s = z3.SolverFor("QF_BV")
+    s.add(*an.state_assumes, _lock_formula(info, _Sig(info, an.o), pairs))
+    return s.check() == z3.sat
 
 
 def _frame_assumes(an, o):
@@ -494,12 +514,11 @@ def run(cfg, ctx):
     note("pysym_paths_one_cycle", len(paths))
     note("pysym_feasibility_queries", eng.queries)
     ctx.witness(f"{d}: some transaction runs", A + [z3.Or(*[S(t, "run") for t in info.tids])])
-    tk = an.orc.tkeys()
-    pairs = [(info.id_of[a], info.id_of[b]) for a in tk for b in tk if a != b and an.orc.conflict(a, b)]
+    pairs = _conflict_pairs(an, info)
     if pairs:
-        ctx.witness(f"{d}: a ready and runnable transaction loses to a running conflicting one",
-                    A + [z3.Or(*[z3.And(S(a, "ready"), S(a, "runnable"), z3.Not(S(a, "run")), S(b, "run")) for a, b in pairs])])
         note("designs_with_conflicts")
+    if cfg.get("want_conflict"):
+        ctx.witness(f"{d}: a ready and runnable transaction loses to a running conflicting one", A + [_lock_formula(info, S, pairs)])
     if info.mids:
         ctx.witness(f"{d}: some method runs", A + [z3.Or(*[S(m, "run") for m in info.mids])])
     ctx.prove(f"{d}: the {len(paths)} explored paths of CycleProfile.make cover every sample combination the circuit can produce", A,
